@@ -79,6 +79,9 @@ def showState (r : Raw) : String := csv (unitsConsumed r) ++ " " ++ csv (unitPri
    → exec: `ok <consumed csv>` | `err-units <dim>` | `err-overflow` | `err-badkey` (what
    `Processor.Execute` does with the block on a manager fresh from `ComputeNext`);
    build: `build-done` (oracle-only line)
+* `blk2 <gap s> <max×5> <target×5> <rules×7> <nParentTx> <tx>* <nChildTx> <tx>*`
+   → `ok <parent consumed csv> <child consumed csv>` | `parent:err-…` | `child:err-…`
+   (two blocks through `Processor.Execute`, the child on the parent's fee state via `ComputeNext`)
 * `reset <consumed×5> <price×5>` → `ok` (fresh manager with these values stored)
 * `consume <units×5> <limit×5>` → `<true|false> <dimension> <consumed csv> <prices csv>`
 -/
@@ -123,6 +126,49 @@ def step (st : Raw) (ws : List String) : Raw × String :=
         | none => (st, "bad-op")
       | none => (st, "bad-op")
     | _, _ => (st, "bad-op")
+  | "blk2" :: gap :: args =>
+    -- two-block chain through the processor: parent at 10 000 ms on an empty fee state, child
+    -- `gap` seconds (+500 ms) later on the parent's fee state
+    match parseU64 gap, allSome ((args.take 17).map parseU64), (args.drop 17) with
+    | some gap, some [m0, m1, m2, m3, m4, t0, t1, t2, t3, t4, base, kr, vr, ka, va, kw, vw], nP :: rest =>
+      match nP.toNat? with
+      | some nP =>
+        match takeTxs nP rest with
+        | some (ptxs, nC :: rest') =>
+          match nC.toNat? with
+          | some nC =>
+            match takeTxs nC rest' with
+            | some (ctxs, []) =>
+              let rules : UnitRules := { baseCompute := base, keyRead := kr, valRead := vr, keyAlloc := ka,
+                                         valAlloc := va, keyWrite := kw, valWrite := vw }
+              let us (txs : List TxDesc) := txs.map fun t =>
+                units t.size rules (t.acts.map (·.1)) t.authCU (t.acts.map (·.2)) t.sponsorKeys
+              let mx := [m0, m1, m2, m3, m4]
+              let tg := [t0, t1, t2, t3, t4]
+              let denoms := [48, 48, 48, 48, 48]   -- genesis.NewDefaultRules
+              let mins := [1, 1, 1, 1, 1]
+              let showErr (who : String) (e : BlockErr) : String :=
+                match e with
+                | .tooLarge i => who ++ ":err-units " ++ toString i
+                | .units .overflow => who ++ ":err-overflow"
+                | .units .badKey => who ++ ":err-badkey"
+              match computeNext emptyRaw 10000 tg denoms mins with
+              | none => (st, "panic")
+              | some r0 =>
+                match processTxs mx r0 (us ptxs) with
+                | .error e => (st, showErr "parent" e)
+                | .ok r1 =>
+                  match computeNext r1 (10000 + (gap : Int) * 1000 + 500) tg denoms mins with
+                  | none => (st, "panic")
+                  | some r2 =>
+                    match processTxs mx r2 (us ctxs) with
+                    | .error e => (st, showErr "child" e)
+                    | .ok r3 => (st, "ok " ++ csv (unitsConsumed r1) ++ " " ++ csv (unitsConsumed r3))
+            | _ => (st, "bad-op")
+          | none => (st, "bad-op")
+        | _ => (st, "bad-op")
+      | none => (st, "bad-op")
+    | _, _, _ => (st, "bad-op")
   | "blk" :: mode :: args =>
     -- <max×5> <target×5> <base keyRead valRead keyAlloc valAlloc keyWrite valWrite> <sponsor balance×3> <nTx> <tx>*
     match allSome ((args.take 20).map parseU64), (args.drop 20) with
